@@ -1,2 +1,297 @@
-/- Property theorems for C06 (placeholder until the proofs land). -/
-import Avt.Spec.C06
+/-
+  Avt.Props.C06 — property C06: scrolling stays inside its region and feeds the scrollback in order.
+
+  All theorems are about the model (`Avt.Model.*`), for every terminal state satisfying the global
+  invariant (`TInv`, C02), every geometry, every count — no bounds.  The specification vocabulary
+  (`scrollUpSpec`, `scrollDownSpec`, `scrollCmdSpec`, `coveredScroll`, `mayChangeScrollback`, …) is
+  defined in Avt/Spec/C06.lean and is the same one the oracle evaluates on implementation states.
+
+  Obligations (all proved at full strength):
+    C06_scrollUp  C06_scrollDown  C06_cmd  C06_cmd_ranges
+    C06_outside_unchanged  C06_shift_and_fill  C06_wrap_marks
+    C06_scrollback_append  C06_scrollback_untouched
+    C06_decstbm  C06_only_scrolls_grow  C06_scroll_feeds_only_from_row0  C06_alt_keeps_none
+-/
+import Avt.Lemmas.C06Props
+
+namespace Avt.Props.C06
+open Avt Avt.Spec Avt.Spec.C06 Avt.C06L
+
+/-! ### the two buffer operations meet the closed-form specification -/
+
+theorem C06_scrollUp (b : Buffer) (s e n : Nat) (pen : Pen) (hb : BInv b = true) (hse : s < e)
+    (he : e ≤ b.rows) : b.scrollUp s e n pen = some (scrollUpSpec s e n pen b) :=
+  scrollUp_eq b s e n pen hb hse he
+
+theorem C06_scrollDown (b : Buffer) (s e n : Nat) (pen : Pen) (hb : BInv b = true) (hse : s < e)
+    (he : e ≤ b.rows) : b.scrollDown s e n pen = some (scrollDownSpec s e n pen b) :=
+  scrollDown_eq b s e n pen hb hse he
+
+/-! ### every scrolling command is the specification applied to the range the property names -/
+
+/-- LF/IND/VT/FF, NEL, RI, SU, SD, IL, DL, DECSTBM (and CR): total, and exactly `scrollCmdSpec` -/
+theorem C06_cmd (t : Terminal) (f : Function) (h : TInv t = true) (hf : coveredScroll f = true) :
+    t.execute f = some (scrollCmdSpec t f) :=
+  scrollCmd_eq t f h hf
+
+/-- the ranges and counts, spelled out: on the bottom margin LF and NEL scroll the region up by one
+    (the cursor stays; NEL and LF under LNM return to column 0), on the top margin RI scrolls it
+    down by one, SU/SD scroll the region by `as_usize(n, 1)`, IL/DL scroll the rows from the cursor
+    to the bottom margin (to the last row when the cursor is below the region) -/
+theorem C06_cmd_ranges (t : Terminal) (h : TInv t = true) (n : Nat) :
+    (t.cursor.row = t.bottomMargin →
+        t.execute .lf = some (if t.newLineMode then toCol0 (regionUp t 1) else regionUp t 1)
+        ∧ t.execute .nel = some (toCol0 (regionUp t 1)))
+    ∧ (t.cursor.row = t.topMargin → t.execute .ri = some (regionDown t 1))
+    ∧ t.execute (.su n) = some (regionUp t (asUsize n 1))
+    ∧ t.execute (.sd n) = some (regionDown t (asUsize n 1))
+    ∧ t.execute (.il n) = some
+        { t with buffer := scrollDownSpec t.cursor.row
+                    (if t.cursor.row ≤ t.bottomMargin then t.bottomMargin + 1 else t.rows)
+                    (asUsize n 1) t.pen t.buffer
+                 dirtyLines := markRange t.dirtyLines t.cursor.row
+                    (if t.cursor.row ≤ t.bottomMargin then t.bottomMargin + 1 else t.rows) }
+    ∧ t.execute (.dl n) = some
+        { t with buffer := scrollUpSpec t.cursor.row
+                    (if t.cursor.row ≤ t.bottomMargin then t.bottomMargin + 1 else t.rows)
+                    (asUsize n 1) t.pen t.buffer
+                 dirtyLines := markRange t.dirtyLines t.cursor.row
+                    (if t.cursor.row ≤ t.bottomMargin then t.bottomMargin + 1 else t.rows) } := by
+  refine ⟨fun hm => ⟨?_, ?_⟩, fun hm => ?_, ?_, ?_, ?_, ?_⟩
+  · rw [C06_cmd t .lf h rfl]
+    simp only [scrollCmdSpec, down1, hm, if_true]
+    rfl
+  · rw [C06_cmd t .nel h rfl]
+    simp only [scrollCmdSpec, down1, hm, if_true]
+  · rw [C06_cmd t .ri h rfl]
+    simp only [scrollCmdSpec, up1, hm, if_true]
+  · exact C06_cmd t (.su n) h rfl
+  · exact C06_cmd t (.sd n) h rfl
+  · exact C06_cmd t (.il n) h rfl
+  · exact C06_cmd t (.dl n) h rfl
+
+/-! ### the property's clauses, read off the specification -/
+
+/-- every row outside the range is cell-for-cell unchanged, for both directions; rows outside the
+    range other than the one just above it also keep their wrap marks -/
+theorem C06_outside_unchanged (s e n : Nat) (pen : Pen) (b : Buffer) (hb : BInv b = true)
+    (hse : s < e) (he : e ≤ b.rows) (i : Nat) (hi : i < s ∨ e ≤ i) :
+    ((scrollUpSpec s e n pen b).view[i]?).map Line.cells = (b.view[i]?).map Line.cells
+    ∧ ((scrollDownSpec s e n pen b).view[i]?).map Line.cells = (b.view[i]?).map Line.cells
+    ∧ ((i + 1 < s ∨ e ≤ i) →
+        (scrollUpSpec s e n pen b).view[i]? = b.view[i]?
+        ∧ (scrollDownSpec s e n pen b).view[i]? = b.view[i]?) := by
+  obtain ⟨_, _, hv, _⟩ := BInv_facts hb
+  have he' : e ≤ b.view.length := by omega
+  refine ⟨?_, ?_, fun hi' => ⟨?_, ?_⟩⟩
+  · have := scrollUp_outside s e n pen b (by omega) he' i hi
+    simpa [cellsOf] using this
+  · have := scrollDown_outside s e n pen b (by omega) he' i hi
+    simpa [cellsOf] using this
+  · exact scrollUp_rows_outside s e n pen b hse he' i hi'
+  · exact scrollDown_rows_outside s e n pen b hse he' i hi'
+
+/-- exactly the rows of the range move, by exactly `k = min n (e - s)`, and the `k` vacated rows are
+    blank rows in the given pen -/
+theorem C06_shift_and_fill (s e n : Nat) (pen : Pen) (b : Buffer) (hb : BInv b = true)
+    (hse : s < e) (he : e ≤ b.rows) (i : Nat) (h1 : s ≤ i) (h2 : i < e) :
+    let k := min n (e - s)
+    (i + k < e →
+        ((scrollUpSpec s e n pen b).view[i]?).map Line.cells = (b.view[i + k]?).map Line.cells
+        ∧ ((scrollDownSpec s e n pen b).view[i + k]?).map Line.cells = (b.view[i]?).map Line.cells)
+    ∧ (e ≤ i + k → (scrollUpSpec s e n pen b).view[i]? = some (Line.blank b.cols pen))
+    ∧ (i < s + k →
+        ((scrollDownSpec s e n pen b).view[i]?).map Line.cells
+          = some (List.replicate b.cols (Cell.blank pen))) := by
+  obtain ⟨_, _, hv, _⟩ := BInv_facts hb
+  have he' : e ≤ b.view.length := by omega
+  refine ⟨fun hk => ⟨?_, ?_⟩, fun hk => ?_, fun hk => ?_⟩
+  · have := scrollUp_shifted s e n pen b (by omega) he' i h1 hk
+    simpa [cellsOf] using this
+  · have := scrollDown_shifted s e n pen b (by omega) he' i h1 hk
+    simpa [cellsOf] using this
+  · exact scrollUp_filled s e n pen b (by omega) he' i hk h2
+  · have := scrollDown_filled s e n pen b (by omega) he' i h1 hk
+    simpa [cellsOf] using this
+
+/-- wrap marks: scrolling up clears the mark of the row just above the range, and of the old last
+    row of a range that ends above the last row of the screen; every other mark moves with its row.
+    Scrolling down clears the marks of the row just above the range and of the new last row of the
+    range. -/
+theorem C06_wrap_marks (s e n : Nat) (pen : Pen) (b : Buffer) (hb : BInv b = true)
+    (hse : s < e) (he : e ≤ b.rows) :
+    (0 < s → (scrollUpSpec s e n pen b).view[s - 1]? = (b.view[s - 1]?).map unmark)
+    ∧ (∀ i, s ≤ i → i + min n (e - s) < e →
+        (scrollUpSpec s e n pen b).view[i]? =
+          if i + min n (e - s) + 1 = e ∧ e < b.rows then (b.view[i + min n (e - s)]?).map unmark
+          else b.view[i + min n (e - s)]?)
+    ∧ (0 < s → ((scrollDownSpec s e n pen b).view[s - 1]?).map Line.wrapped = some false)
+    ∧ ((scrollDownSpec s e n pen b).view[e - 1]?).map Line.wrapped = some false := by
+  obtain ⟨_, _, hv, _⟩ := BInv_facts hb
+  have he' : e ≤ b.view.length := by omega
+  refine ⟨fun hs => ?_, fun i h1 h2 => ?_, fun hs => ?_, ?_⟩
+  · exact scrollUp_row_above s e n pen b hse he' hs
+  · exact scrollUp_rows_moved s e n pen b hse he' i h1 h2
+  · exact scrollDown_unmarked s e n pen b hse he' (s - 1) (Or.inl ⟨hs, rfl⟩)
+  · exact scrollDown_unmarked s e n pen b hse he' (e - 1) (Or.inr rfl)
+
+/-- rows scrolled off the top of a range that begins at the first row are appended to the
+    scrollback unchanged and in order: the new line sequence is the old scrollback, then the old
+    view rows `0..k`, then the new view; cell for cell, and with their wrap marks (except the old
+    last row of a range that ends above the last row of the screen, whose mark is cleared) -/
+theorem C06_scrollback_append (e n : Nat) (pen : Pen) (b : Buffer) :
+    let k := min n e
+    (scrollUpSpec 0 e n pen b).lines
+        = b.sb ++ (upMarks 0 e b.rows b.view).take k ++ (scrollUpSpec 0 e n pen b).view
+    ∧ (scrollUpSpec 0 e n pen b).sb.map Line.cells
+        = b.sb.map Line.cells ++ (b.view.take k).map Line.cells
+    ∧ ∀ i, i < k → (i + 1 ≠ e ∨ e = b.rows) →
+        (scrollUpSpec 0 e n pen b).sb[b.sb.length + i]? = b.view[i]? := by
+  refine ⟨scrollUp_lines e n pen b, ?_, fun i hi hm => scrollUp_sb_rows e n pen b i hi hm⟩
+  have := scrollUp_sb_cells e n pen b
+  simpa [cellsOf, List.map_take] using this
+
+/-- a scroll-up of a range that does not start at row 0, and every scroll-down, leave the
+    scrollback alone -/
+theorem C06_scrollback_untouched (s e n : Nat) (pen : Pen) (b : Buffer) :
+    (s ≠ 0 → (scrollUpSpec s e n pen b).sb = b.sb) ∧ (scrollDownSpec s e n pen b).sb = b.sb := by
+  refine ⟨fun hs => ?_, rfl⟩
+  rw [scrollUp_sb, if_neg hs]
+
+/-- DECSTBM takes effect only for `1 ≤ top < bottom ≤ rows` (after the defaults `top = 1`,
+    `bottom = rows` for omitted / zero parameters) and otherwise leaves the margins as they were -/
+theorem C06_decstbm (t t' : Terminal) (top bottom : Nat) (h : TInv t = true)
+    (he : t.execute (.decstbm top bottom) = some t') :
+    (t'.topMargin, t'.bottomMargin) =
+      if 1 ≤ asUsize top 1 ∧ asUsize top 1 < asUsize bottom t.rows ∧ asUsize bottom t.rows ≤ t.rows
+      then (asUsize top 1 - 1, asUsize bottom t.rows - 1)
+      else (t.topMargin, t.bottomMargin) := by
+  rw [C06_cmd t _ h rfl] at he
+  cases he
+  simp only [scrollCmdSpec, setMargins, marginsAfter, validMargins, Bool.and_eq_true,
+    decide_eq_true_eq, and_assoc]
+
+/-- no other control function adds to the scrollback: a function that changes the lines above the
+    view of the active buffer (or anything in the parked buffer) is LF/IND/VT/FF, NEL, SU, DL,
+    Print, Rep, RIS, or a DECSET/DECRST carrying an alternate-screen mode (47/1047/1049) -/
+theorem C06_only_scrolls_grow (t t' : Terminal) (f : Function) (h : TInv t = true)
+    (he : t.execute f = some t')
+    (hne : t'.buffer.sb ≠ t.buffer.sb ∨ t'.otherBuffer ≠ t.otherBuffer) :
+    f = .lf ∨ f = .nel ∨ (∃ n, f = .su n) ∨ (∃ n, f = .dl n) ∨ (∃ c, f = .print c)
+      ∨ (∃ n, f = .rep n) ∨ f = .ris
+      ∨ ((∃ ms, f = .decset ms ∨ f = .decrst ms) ∧ replacesBuffer f = true) := by
+  cases hm : mayChangeScrollback f
+  · have := keeps_scrollback t t' f h hm he
+    rcases hne with h1 | h1
+    · exact absurd this.1 h1
+    · exact absurd this.2 h1
+  · cases f <;> simp only [mayChangeScrollback, Bool.false_eq_true] at hm
+    case lf => exact Or.inl rfl
+    case nel => exact Or.inr (Or.inl rfl)
+    case su n => exact Or.inr (Or.inr (Or.inl ⟨n, rfl⟩))
+    case dl n => exact Or.inr (Or.inr (Or.inr (Or.inl ⟨n, rfl⟩)))
+    case print c => exact Or.inr (Or.inr (Or.inr (Or.inr (Or.inl ⟨c, rfl⟩))))
+    case rep n => exact Or.inr (Or.inr (Or.inr (Or.inr (Or.inr (Or.inl ⟨n, rfl⟩)))))
+    case ris => exact Or.inr (Or.inr (Or.inr (Or.inr (Or.inr (Or.inr (Or.inl rfl))))))
+    case xtwinops c r =>
+      rw [xtwinops_inert t c r h] at he
+      cases he
+      rcases hne with h1 | h1 <;> exact absurd rfl h1
+    case decset ms =>
+      refine Or.inr (Or.inr (Or.inr (Or.inr (Or.inr (Or.inr (Or.inr ⟨⟨ms, Or.inl rfl⟩, ?_⟩))))))
+      cases hr : replacesBuffer (.decset ms)
+      · have := decModes_same t t' _ hr (Or.inl ⟨ms, rfl⟩) he
+        rcases hne with h1 | h1
+        · exact absurd (by rw [this.1]) h1
+        · exact absurd this.2 h1
+      · rfl
+    case decrst ms =>
+      refine Or.inr (Or.inr (Or.inr (Or.inr (Or.inr (Or.inr (Or.inr ⟨⟨ms, Or.inr rfl⟩, ?_⟩))))))
+      cases hr : replacesBuffer (.decrst ms)
+      · have := decModes_same t t' _ hr (Or.inr ⟨ms, rfl⟩) he
+        rcases hne with h1 | h1
+        · exact absurd (by rw [this.1]) h1
+        · exact absurd this.2 h1
+      · rfl
+
+/-- … and among the covered scrolling commands the scrollback changes only when the scrolled
+    range starts at row 0: LF/NEL on the bottom margin with top margin 0, SU with top margin 0,
+    DL with the cursor on row 0 -/
+theorem C06_scroll_feeds_only_from_row0 (t : Terminal) (f : Function) (hf : coveredScroll f = true)
+    (hne : (scrollCmdSpec t f).buffer.sb ≠ t.buffer.sb) :
+    ((f = .lf ∨ f = .nel) ∧ t.cursor.row = t.bottomMargin ∧ t.topMargin = 0)
+    ∨ ((∃ n, f = .su n) ∧ t.topMargin = 0)
+    ∨ ((∃ n, f = .dl n) ∧ t.cursor.row = 0) := by
+  have hup : ∀ s e n pen (b : Buffer), (scrollUpSpec s e n pen b).sb ≠ b.sb → s = 0 := by
+    intro s e n pen b hx
+    rcases Nat.eq_zero_or_pos s with h0 | h0
+    · exact h0
+    · exact absurd ((C06_scrollback_untouched s e n pen b).1 (by omega)) hx
+  have hdown1 : (down1 t).buffer.sb ≠ t.buffer.sb → t.cursor.row = t.bottomMargin ∧ t.topMargin = 0 := by
+    intro hx
+    unfold down1 at hx
+    split at hx
+    · rename_i hrow
+      exact ⟨hrow, hup _ _ _ _ _ hx⟩
+    · split at hx <;> exact absurd rfl hx
+  cases f <;> simp only [coveredScroll, Bool.false_eq_true] at hf <;> simp only [scrollCmdSpec] at hne
+  case lf =>
+    refine Or.inl ⟨Or.inl rfl, hdown1 ?_⟩
+    split at hne
+    · exact hne
+    · exact hne
+  case nel => exact Or.inl ⟨Or.inr rfl, hdown1 hne⟩
+  case ri =>
+    unfold up1 at hne
+    split at hne
+    · exact absurd rfl hne
+    · split at hne <;> exact absurd rfl hne
+  case su n => exact Or.inr (Or.inl ⟨⟨n, rfl⟩, hup _ _ _ _ _ hne⟩)
+  case sd n => exact absurd rfl hne
+  case il n => exact absurd rfl hne
+  case dl n => exact Or.inr (Or.inr ⟨⟨n, rfl⟩, hup _ _ _ _ _ hne⟩)
+  case decstbm a b => exact absurd rfl hne
+  case cr => exact absurd rfl hne
+
+/-- the alternate screen keeps no scrollback: after every finishing call (`changes()` + `gc()`)
+    nothing is left above its view -/
+theorem C06_alt_keeps_none (t : Terminal) (h : TInv t = true)
+    (ha : t.activeBufferType = .alternate) : (finishT t).buffer.sb = [] :=
+  alt_keeps_none t h ha
+
+/-! ### the hypotheses are satisfiable: a concrete 3x4 terminal with region rows 1..2, a non-default
+    pen, soft-wrapped rows and one line of scrollback -/
+
+private def exPen : Pen := { bg := some (.indexed 4) }
+private def exRow (c : Nat) (w : Bool) : Line := ⟨List.replicate 3 ⟨c, {}⟩, w⟩
+
+private def exT : Terminal :=
+  { cols := 3, rows := 4,
+    buffer := { sb := [exRow 0x7a false], view := [exRow 0x61 true, exRow 0x62 true, exRow 0x63 true, exRow 0x64 false],
+                cols := 3, rows := 4, limit := none, trimNeeded := false },
+    otherBuffer := Buffer.new 3 4 (some 0) none,
+    activeBufferType := .primary, scrollbackLimit := none,
+    cursor := { col := 1, row := 2 }, pen := exPen, charsets := (.ascii, .ascii), activeCharset := 0,
+    tabs := [], insertMode := false, originMode := false, autoWrapMode := true, newLineMode := false,
+    cursorKeysMode := .normal, pendingWrap := false, topMargin := 1, bottomMargin := 2,
+    savedCtx := {}, alternateSavedCtx := {}, dirtyLines := [false, false, false, false],
+    xtwinops := false }
+
+example : TInv exT = true := by decide
+
+/-- LF on the bottom margin scrolls rows 1..2: row 0 loses its mark, row 2 moves to row 1 without its
+    mark, row 2 is blank in the pen, row 3 and the scrollback are untouched -/
+example : exT.execute .lf = some
+    { exT with
+      buffer := { exT.buffer with
+        view := [exRow 0x61 false, exRow 0x63 false, Line.blank 3 exPen, exRow 0x64 false],
+        trimNeeded := true },
+      dirtyLines := [false, true, true, false] } := by
+  rw [C06_cmd exT .lf (by decide) rfl]
+  decide
+
+/-- DL on row 0 of the primary screen feeds the scrollback -/
+example : ((scrollCmdSpec { exT with cursor := { col := 0, row := 0 } } (.dl 2)).buffer.sb)
+    = [exRow 0x7a false, exRow 0x61 true, exRow 0x62 true] := by decide
+
+end Avt.Props.C06
